@@ -160,6 +160,17 @@ func (m *Machine) intercept(fn *ssa.Function, args []Value) (Value, bool) {
 	case "strings.IndexRune", "strings.IndexByte":
 		m.stub(name)
 		return m.stringsIndex(args[0].(StringV), args[1].(*Term)), true
+	case "bytes.IndexByte", "internal/bytealg.IndexByte":
+		m.stub(name)
+		sl := args[0].(SliceV)
+		var bs []*Term
+		if sl.arr != nil {
+			bs = m.sliceBytes(sl)
+		}
+		return m.stringsIndex(StringV{b: bs}, args[1].(*Term)), true
+	case "internal/bytealg.IndexByteString":
+		m.stub(name)
+		return m.stringsIndex(args[0].(StringV), args[1].(*Term)), true
 	case "internal/stringslite.Clone", "strings.Clone":
 		return args[0], true
 	case "strings.ContainsAny":
